@@ -31,10 +31,26 @@ def set_values(se, env, r):
 def hs_new(se, env, pc): return one(env, {'set': []})
 
 
+def _eqf(a, b):
+    """equality of two set elements as a formula (structs field by field)"""
+    if isinstance(a, dict) and isinstance(b, dict):
+        ka = [k for k in a if isinstance(k, int)]
+        return And(*[_eqf(a[k], b.get(k)) for k in ka if not isinstance(a[k], (dict, Enum)) or k in b]) if ka else BoolVal(True)
+    if isinstance(a, Enum) and isinstance(b, Enum):
+        return And(BoolVal(a.tag == b.tag), *[_eqf(x, y) for x, y in zip(a.fields, b.fields)])
+    if is_bv(a) and is_bv(b): return a == b
+    return BoolVal(a is b or a == b)
+
+
 def hs_insert(se, env, pc, r, x):
     x = se.deref(env, x) if isinstance(x, Ref) else x
     cur = set_values(se, env, r)
-    if any(_same(x, y) for y in cur): return one(env, BoolVal(False))
+    try:
+        if any(_same(x, y) for y in cur): return one(env, BoolVal(False))
+    except Inconclusive:
+        # membership depends on the model (an element decoded from symbolic bytes): fork
+        present = Or(*[_eqf(x, y) for y in cur])
+        return [(present, BoolVal(False), env.get('$state')), (Not(present), BoolVal(True), env.get('$state'), [(r, {'set': cur + [x]})])]
     se.store(env, r, {'set': cur + [x]}); return one(env, BoolVal(True))
 
 
